@@ -364,14 +364,16 @@ inline ReportModel model_report(const Spec& s) {
     ReportModel r;
     for (auto& m : s.meths) {
         std::size_t arity = m.vp.size();
-        // signature (bitmask over definitions) -> has a concrete class
-        std::vector<std::vector<std::pair<std::uint64_t, bool>>> dims(arity);
+        // signature (bitmask over definitions, up to 128) -> has a concrete
+        // class
+        using Mask = unsigned __int128;
+        std::vector<std::vector<std::pair<Mask, bool>>> dims(arity);
         for (std::size_t i = 0; i < arity; ++i) {
             for (int c : bits(s.desc[m.vp[i]])) {
-                std::uint64_t sig = 0;
+                Mask sig = 0;
                 for (std::size_t d = 0; d < m.defs.size(); ++d) {
                     if (s.isa(c, m.defs[d].cls[i])) {
-                        sig |= 1ull << d;
+                        sig |= Mask(1) << d;
                     }
                 }
                 bool found = false;
@@ -395,7 +397,7 @@ inline ReportModel model_report(const Spec& s) {
         }
         std::vector<std::size_t> idx(arity, 0);
         for (std::size_t k = 0; k < cells; ++k) {
-            std::uint64_t mask = ~0ull;
+            Mask mask = ~Mask(0);
             bool concrete = true;
             std::size_t rem = k;
             for (std::size_t i = 0; i < arity; ++i) {
